@@ -157,7 +157,10 @@ func (w *PerConfigReconciler) listQueuedJobsForJobConfig(
 
 	rjobs := make([]*execution.Job, 0, len(jobs))
 	for _, rj := range jobs {
-		if job.IsQueued(rj) {
+		// A Job that was already rejected must never be started, even if the
+		// JobController has not yet updated its phase to be terminal.
+		_, rejected := job.GetAdmissionErrorMessage(rj)
+		if job.IsQueued(rj) && !rejected {
 			rjobs = append(rjobs, rj)
 		}
 		if job.IsActive(rj) {
